@@ -192,6 +192,61 @@ TABLE = [
  ("C19-topk-redis-import-reuses-arg-slice", "C19", "/tmp/wt3-C19", 2, ["C19", "C10"],
   "TopKRedis.importHeap reuses a package-level argument slice at full length.",
   "a smaller heap imported after a larger one was imported by any Top-K in the process: leftover members are ZADDed into the copy"),
+ # ---- batch 4 ----
+ ("C02-redis-lookup-maxlen-counter", "C02", "/tmp/wt4-C02", 1, ["C02", "C13"],
+  "The Redis bucket lookup script passes the bucket counter as MAXLEN to LPOS, scanning only the 'occupied' prefix of the list.",
+  "Redis backend, bucket size >= 2: a remove leaves a hole, add grows the list at its head, a live entry sits past position _len"),
+ ("C02-positions-memo-keeps-callers-slice", "C02", "/tmp/wt4-C02", 2, ["C02"],
+  "getPositions memoises the last key hashed but keeps the caller's slice: a buffer rewritten in place with another key of equal length hits the memo.",
+  "a caller that reuses one buffer for consecutive inserts of equal-length keys"),
+ ("C05-estimation-uint32-square", "C05", "/tmp/wt4-C05", 1, ["C05"],
+  "getEstimation squares the register count in uint32: the square wraps to 0 from 65536 registers on, Count returns 0.",
+  "in-memory sketch with 2^16 or more registers"),
+ ("C05-mem-update-rlock-fast-path", "C05", "/tmp/wt4-C05", 2, ["C07", "C05"],
+  "HyperLogLog.Update reads the register under RLock and later stores the max against the value read earlier under the write lock.",
+  "two concurrent updates to the same register: the larger value written first, the smaller second (no data race)"),
+ ("C07-cms-update-rlock-atomic-cells", "C07", "/tmp/wt4-C07", 1, ["C07"],
+  "CountMinSketch.Update takes RLock and bumps the cells atomically, but allSum += count stays a plain read-modify-write under the shared lock.",
+  "two goroutines inside Update at once: increments of the exported total are lost"),
+ ("C07-topk-export-lock-order", "C07", "/tmp/wt4-C07", 2, ["C07"],
+  "TopK.Export takes the sketch lock before t.lock while Insert takes them in the other order.",
+  "a concurrent Insert and Export deadlock (no race, no wrong value)"),
+ ("C08-redis-merge-skips-last-column", "C08", "/tmp/wt4-C08", 1, ["C08", "C12"],
+  "The Redis Count-Min merge script loops j = 1 .. columns-1: the last column of every row is not merged.",
+  "after a Merge, a key with a row position equal to columns-1"),
+ ("C08-topk-redis-zincrby", "C08", "/tmp/wt4-C08", 2, ["C08", "C04"],
+  "TopKRedis.Insert bumps an already tracked element with ZINCRBY count instead of ZREM + ZADD with the sketch frequency.",
+  "a tracked element whose cells were raised by a colliding key in a narrow sketch, then inserted again"),
+ ("C09-bucket-redis-full-flag", "C09", "/tmp/wt4-C09", 1, ["C09"],
+  "BucketRedis remembers 'seen full' in a handle-local flag cleared only by remove/restore on the same handle.",
+  "handle A sees a bucket full, re-attached handle B removes from it, A inserts there: A skips the freed bucket"),
+ ("C09-cuckoo-attach-retries-default", "C09", "/tmp/wt4-C09", 2, ["C09"],
+  "NewCuckooFilterRedisFromKey replaces retries == 0 by 500.",
+  "a filter created with retries = 0, re-attached: the second handle relocates entries the creating handle refuses to"),
+ ("C12-mem-merge-saturates", "C12", "/tmp/wt4-C12", 1, ["C12"],
+  "In-memory Merge pins a cell at MaxUint64 when the sum passes 2^64 while Update wraps.",
+  "cell sums reaching 2^64 (merges that feed each other double the cells)"),
+ ("C12-redis-merge-area-check", "C12", "/tmp/wt4-C12", 2, ["C12"],
+  "CountMinSketchRedis.Merge folds the two dimension checks into rows*columns != rows*columns.",
+  "same-area sketches of different shape, receiver with more rows: leading rows overwritten, then an error, nothing rolled back"),
+ ("C14-mem-noop-swap-guard-wrong-variable", "C14", "/tmp/wt4-C14", 1, ["C14", "C02"],
+  "The in-memory eviction loop skips logging a 'no-op swap' by comparing the victim with the inserted fingerprint instead of the carried one.",
+  "full filter, failed non-destructive insert carrying an already stored fingerprint: the old copy is lost on roll-back"),
+ ("C14-redis-rollback-pipeline-unflushed", "C14", "/tmp/wt4-C14", 2, ["C14"],
+  "The Redis roll-back became a pipeline flushed every 100 LSETs with no final Exec.",
+  "retries not a multiple of 100: the oldest retries % 100 undo records are never written back"),
+ ("C15-redis-count-string-min-2", "C15", "/tmp/wt4-C15", 1, ["C15", "C03", "C08"],
+  "The Redis Count script compares the raw LINDEX replies as strings (same line as C08-redis-count-string-min, found independently).",
+  "Redis sketch with >= 2 rows, a skewed stream: small cells starting with a larger digit than cells polluted by a heavy hitter"),
+ ("C15-cuckoo-fpl-from-bucket-count", "C15", "/tmp/wt4-C15", 2, ["C15"],
+  "NewCuckooFilterWithErrorRate passes the bucket count instead of the size to CalculateFingerPrintLength.",
+  "configurations where the fingerprint loses one decimal digit: about ten times the false-positive rate"),
+ ("C18-topk-readfrom-returns-outer-err", "C18", "/tmp/wt4-C18", 1, ["C18", "C11"],
+  "TopK.ReadFrom returns the outer (nil) err when reading a heap value fails.",
+  "a cut inside, or at the start of, a non-empty heap value string: (0, nil) is returned"),
+ ("C18-topk-export-trailing-newline", "C18", "/tmp/wt4-C18", 2, ["C18", "C10"],
+  "TopK.Export uses json.Encoder (SetEscapeHTML(false)), which appends a newline: the document minus its last byte is complete JSON.",
+  "exactly one cut: prefix length len-1 is accepted by Import"),
 ]
 
 
